@@ -285,6 +285,127 @@ def producer_cases(ctx, res, n):
         res.traces_validated += 1
 
 
+class FlowClient(object):
+    """Fake client for driving the real Producer through sends, broker errors and retries.
+    Only the interface Producer uses; produce Deferreds are completed by the scenario."""
+
+    def __init__(self, reactor):
+        self.reactor = reactor
+        self.topic_partitions = {}
+        self._api_versions = 0
+        self.pending = []  # (payloads, deferred)
+        self.resets = 0
+        self.on_send = None
+
+    def metadata_error_for_topic(self, topic):
+        return 0
+
+    def load_metadata_for_topics(self, *topics):
+        from twisted.internet import defer
+
+        return defer.succeed(None)
+
+    def reset_topic_metadata(self, *topics):
+        self.resets += 1
+
+    def send_produce_request(self, payloads, acks=1, timeout=1000, fail_on_error=True, callback=None):
+        from twisted.internet import defer
+
+        d = defer.Deferred()
+        self.pending.append((list(payloads), d))
+        if self.on_send is not None:
+            self.on_send(payloads)
+        return d
+
+
+def producer_flow_cases(ctx, res, n):
+    """The real Producer (round robin) through sends, per-partition broker errors, retries and
+    metadata resets: the partition carried by each send must follow the per-topic cycle, i.e. be
+    what `nextPartitionRR` yields for the sends in order - errors and retries select nothing."""
+    import afkak.partitioner as P
+    from afkak.common import ProduceResponse
+    from afkak.producer import Producer
+    from twisted.internet.task import Clock
+
+    rng = ctx.rng
+    P.RoundRobinPartitioner.set_random_start(False)
+    batch = []
+    for i in range(n):
+        clock = Clock()
+        client = FlowClient(clock)
+        prod = Producer(client, partitioner_class=P.RoundRobinPartitioner, max_req_attempts=50)
+        topics = ["t%d" % k for k in range(rng.randrange(1, 3))]
+        for t in topics:
+            client.topic_partitions[t] = sorted(rng.sample(range(0, 9), rng.randrange(2, 5)))
+        sends = []  # (topic, list at send time is read at dispatch) in send order
+        chosen = {}  # send index -> partition
+        dispatched_lists = {}
+        sid = 0
+
+        def note_payloads(payloads):
+            for pl in payloads:
+                for m in pl.messages:
+                    k = int(m.value[1:])
+                    if k not in chosen:
+                        chosen[k] = pl.partition
+                        dispatched_lists[k] = list(client.topic_partitions[pl.topic])
+
+        client.on_send = note_payloads
+        for _ in range(rng.randrange(4, 26)):
+            r = rng.random()
+            if r < 0.55 or not client.pending:
+                t = rng.choice(topics)
+                sends.append(t)
+                d = prod.send_messages(t, msgs=[b"m%d" % sid])
+                d.addErrback(lambda f: None)
+                sid += 1
+            else:
+                payloads, d = client.pending.pop(0)
+                code = rng.choice([0, 0, 6, 3, 6])
+                d.callback([ProduceResponse(pl.topic, pl.partition, code if j == 0 else 0, 10) for j, pl in enumerate(payloads)])
+                if code:
+                    res.count("flow_error_%d" % code)
+                    clock.advance(60)  # retry timer fires: the failed payloads are re-sent
+        # drain
+        for _ in range(200):
+            if not client.pending:
+                break
+            payloads, d = client.pending.pop(0)
+            d.callback([ProduceResponse(pl.topic, pl.partition, 0, 10) for pl in payloads])
+            clock.advance(60)
+        lines, outs, per_topic, windows = ["prod-reset"], [["ok"]], {t: [] for t in topics}, []
+        for k, t in enumerate(sends):
+            if k not in chosen:
+                break
+            ps = dispatched_lists[k]
+            lines.append("prod-next %s %s -" % (t, ints(ps)))
+            outs.append(["int %d" % chosen[k]])
+            per_topic[t].append(chosen[k])
+            nn = len(ps)
+            if len(per_topic[t]) >= nn:
+                windows.append((ps, per_topic[t][-nn:]))
+        mon = ["mon-rr %s %s" % (ints(ps), ints(w)) for ps, w in windows]
+        batch.append((lines, outs, windows, mon))
+        res.evaluations += 1
+        res.count("flow_histories"); res.count("flow_sends", len(sends)); res.count("flow_resets", client.resets)
+        if client.resets and len(sends) > 3:
+            res.nontrivial(lines + [client.resets])
+        res.sample({"op": "producer-flow", "sends": sends[:10], "chosen": [chosen.get(k) for k in range(min(10, len(sends)))], "metadata_resets": client.resets}, limit=9)
+    got = ctx.model("partitioner", [l for b in batch for l in b[0] + b[3]])
+    pos = 0
+    for lines, outs, windows, mon in batch:
+        g = got[pos:pos + len(lines)]
+        gm = got[pos + len(lines):pos + len(lines) + len(mon)]
+        pos += len(lines) + len(mon)
+        if g != outs:
+            j = next(k for k in range(len(lines)) if g[k] != outs[k])
+            res.disagreements.append({"component": "partitioner/producer-flow", "scenario": lines[: j + 1], "impl": outs[j], "model": g[j]})
+        for (ps, w), x in zip(windows, gm):
+            if x != ["ok"]:
+                res.monitor_failures.append({"what": "per-topic round-robin window is not fair across broker errors / retries / metadata resets (list unchanged)", "scenario": {"partitions": ps, "window": w, "history": lines}, "tags": ["rr-unfair-producer-flow"]})
+        res.traces_validated += 1
+
+
 def run(ctx, res):
     res.rule = ("hashed: random keys (every length 0..67, long, high bytes in every tail position, text vs UTF-8) x partition lists; "
                 "non-trivial = key of >= 4 bytes (exercises the chunk loop). round-robin: random histories of selections with list "
@@ -292,6 +413,7 @@ def run(ctx, res):
     hashed_cases(ctx, res, ctx.scale(1500, 40000))
     rr_cases(ctx, res, ctx.scale(400, 6000))
     producer_cases(ctx, res, ctx.scale(300, 5000))
+    producer_flow_cases(ctx, res, ctx.scale(300, 5000))
 
 
 def search(ctx, res, broken):
@@ -300,6 +422,7 @@ def search(ctx, res, broken):
     hashed_cases(ctx, r2, ctx.scale(4000, 60000))
     rr_cases(ctx, r2, ctx.scale(1000, 10000))
     producer_cases(ctx, r2, ctx.scale(1000, 10000))
+    producer_flow_cases(ctx, r2, ctx.scale(1000, 10000))
     return r2.monitor_failures[:3]
 
 
